@@ -65,7 +65,7 @@ pub fn replay_file(path: &str) -> i32 {
     let case = &doc["case"];
     match case["kind"].as_str().unwrap_or("") {
         "yuv" => yuv::replay(case),
-        "reader" | "reader-long" | "reader-sc" | "reader-type" | "reader-overlong" => bitreader::replay(case),
+        "reader" | "reader-long" | "reader-sc" | "reader-type" | "reader-overlong" | "reader-fault" => bitreader::replay(case),
         "interleaving" => determinism::replay(case),
         "header" => headers::replay(case),
         "split" | "large" => atomic::replay(case),
